@@ -2,7 +2,9 @@ package main
 
 import (
 	"errors"
+	"reflect"
 	"runtime"
+	"sort"
 	"time"
 
 	"encoding/binary"
@@ -346,4 +348,149 @@ func afterlifePass(run *ev.Run, prop string) {
 	}
 	run.Add("traces_validated_against_impl", int64(len(all)))
 	run.Set("afterlife_pass", fmt.Sprintf("%d histories ending in Close, client dropped, 3 collection rounds, kernel-side activity compared", len(all)))
+}
+
+// ---- package-level counters of the library (see checks/reasm/pkgvars.go) ------------------------------------------
+
+// packageCounterPass: every package-level integer variable of the tree's root package that MOVES when a client talks to
+// the kernel (a process-wide sequence number, a statistics word) is set next to the limits of each width up to its own
+// and short histories run across the wrap under the property's oracles.
+func packageCounterPass(run *ev.Run, prop string, hists [][]int, exec func(hist []int) []Viol) {
+	type iv struct {
+		name string
+		bits int
+		get  func() uint64
+		set  func(uint64)
+	}
+	var vars []iv
+	m := libaudit.VerifPackageVars()
+	var names []string
+	for n := range m {
+		names = append(names, n)
+	}
+	sort.Strings(names)
+	for _, n := range names {
+		pv := reflect.ValueOf(m[n])
+		if pv.Kind() != reflect.Ptr {
+			continue
+		}
+		v := pv.Elem()
+		switch {
+		case v.CanInt():
+			v := v
+			b := v.Type().Bits()
+			vars = append(vars, iv{n, b, func() uint64 { return uint64(v.Int()) }, func(x uint64) { v.SetInt(int64(x) << (64 - b) >> (64 - b)) }})
+		case v.CanUint():
+			v := v
+			b := v.Type().Bits()
+			vars = append(vars, iv{n, b, func() uint64 { return v.Uint() }, func(x uint64) { v.SetUint(x & (1<<uint(b) - 1)) }})
+		case v.Kind() == reflect.Struct:
+			ld, st := pv.MethodByName("Load"), pv.MethodByName("Store")
+			if !ld.IsValid() || !st.IsValid() || ld.Type().NumOut() != 1 {
+				continue
+			}
+			t := ld.Type().Out(0)
+			b := t.Bits()
+			vars = append(vars, iv{n, b, func() uint64 {
+				r := ld.Call(nil)[0]
+				if r.CanInt() {
+					return uint64(r.Int())
+				}
+				return r.Uint()
+			}, func(x uint64) {
+				a := reflect.New(t).Elem()
+				if a.CanInt() {
+					a.SetInt(int64(x) << (64 - b) >> (64 - b))
+				} else {
+					a.SetUint(x & (1<<uint(b) - 1))
+				}
+				st.Call([]reflect.Value{a})
+			}})
+		}
+	}
+	before := map[string]uint64{}
+	for _, v := range vars {
+		before[v.name] = v.get()
+	}
+	for _, h := range hists {
+		_ = exec(h)
+	}
+	moved := 0
+	for _, v := range vars {
+		if v.get() == before[v.name] {
+			continue
+		}
+		moved++
+		var limits []uint64
+		for _, b := range []int{8, 16, 32, 64} {
+			if b <= v.bits {
+				limits = append(limits, 1<<uint(b)-3, 1<<uint(b-1)-3)
+			}
+		}
+		limits = append(limits, ^uint64(0)-2)
+		reported := false
+		for _, lim := range limits {
+			for _, h := range hists {
+				v.set(lim)
+				for _, x := range exec(h) {
+					if !reported {
+						reported = true
+						run.Report(ev.Violation{Sig: x.Sig, What: fmt.Sprintf("with the package-level variable %s (%d bits; it moves when a client talks to the kernel) set to %#x before history %v: %s", v.name, v.bits, lim, h, tailStr(x.What, 1200)), Replay: map[string]interface{}{"variable": v.name, "value": lim, "history": h}})
+					}
+				}
+				run.Add("traces_validated_against_impl", 1)
+			}
+		}
+		v.set(before[v.name])
+	}
+	run.Set("package_counter_pass", fmt.Sprintf("%d package-level integer variables, %d move under client histories", len(vars), moved))
+}
+
+// panicPass: the transport behind the exported Netlink field panics once (a wrapper's nil dereference, a closed channel)
+// - inside the socket close of the first Close, or inside one of the Sends - and the caller recovers and goes on: Close
+// still closes the socket at most once and clears the PID at most once, however often it is called afterwards.
+func panicPass(run *ev.Run, prop string) {
+	n := 0
+	for _, sh := range []ksim.Shape{{PanicOnClose: true}, {PanicOnSendN: 1}, {PanicOnSendN: 2}, {PanicOnSendN: 3}} {
+		for _, hist := range [][]string{{"SetPID", "Close", "Close", "Close"}, {"SetPIDNoWait", "Wait", "Close", "Close"}, {"Rate", "Close", "Close"}, {"SetPID", "Status", "Close", "Rules", "Close"}} {
+			sim := ksim.New(nil)
+			sim.NoDeviations = true
+			sim.Shape = sh
+			c := &libaudit.AuditClient{Netlink: sim}
+			for _, op := range hist {
+				func() {
+					defer func() { _ = recover() }()
+					switch op {
+					case "SetPID":
+						_ = c.SetPID(libaudit.WaitForReply)
+					case "SetPIDNoWait":
+						_ = c.SetPID(libaudit.NoWait)
+					case "Rate":
+						_ = c.SetRateLimit(3, libaudit.NoWait)
+					case "Wait":
+						_ = c.WaitForPendingACKs()
+					case "Status":
+						_, _ = c.GetStatus()
+					case "Rules":
+						_, _ = c.GetRules()
+					case "Close":
+						_ = c.Close()
+					}
+				}()
+			}
+			n++
+			clears := 0
+			for _, s := range sim.Sends {
+				if isPIDClear(s) {
+					clears++
+				}
+			}
+			if sim.Closes > 1 || clears > 1 {
+				run.Report(ev.Violation{Sig: prop + " close-repeated-after-panic", What: fmt.Sprintf("history %v on a transport that panics once (%+v; the caller recovers): the socket was closed %d times and the PID cleared %d times, want each at most once", hist, sh, sim.Closes, clears), Replay: map[string]interface{}{"history": hist, "shape": sh}})
+				return
+			}
+		}
+	}
+	run.Add("traces_validated_against_impl", int64(n))
+	run.Set("panic_pass", fmt.Sprintf("%d histories on transports that panic once in Close / in the n-th Send", n))
 }
